@@ -91,6 +91,7 @@ func init() {
 type caseRec struct {
 	Text    string `json:"text"`
 	Choices []int  `json:"choices,omitempty"` // schedule (only for executions that are not a simple pair)
+	Variant int    `json:"variant,omitempty"` // entry point (parseVariant)
 }
 
 var posRe = regexp.MustCompile(regexp.QuoteMeta(inputName) + `:(\d+):(\d+)`)
@@ -117,13 +118,20 @@ func check(text string) (vs []engine.Violation, outcome string, items int) {
 			if !seen[v.Key] {
 				seen[v.Key] = true
 				v.Witness += fmt.Sprintf(" schedule=%v", ch)
-				v.Replay = engine.JSON(caseRec{Text: text, Choices: ch})
+				v.Replay = engine.JSON(caseRec{Text: text, Choices: ch, Variant: parseVariant})
 				vs = append(vs, v)
 			}
 		}
 		return s2
 	}, func(*verifrt.Sched, []int) {})
 	return
+}
+
+// parseVariant selects the entry point checkSchedule goes through (0 = parse.Parse without extensions).
+var parseVariant int
+
+func extCardEverywhere(parse.NodeType) map[parse.NodeType]parse.Cardinality {
+	return map[parse.NodeType]parse.Cardinality{parse.NodeConfigdHelp: {'0', 'n'}, parse.NodeOpdHelp: {'0', '1'}}
 }
 
 // preemption bound and execution cap per input for executions that are not a simple pair
@@ -161,7 +169,21 @@ func checkSchedule(text string, choices []int) (vs []engine.Violation, outcome s
 				panicked = r
 			}
 		}()
-		tree, err = parse.Parse(inputName, text, nil)
+		switch parseVariant {
+		case 1:
+			// an extension cardinality function that has something to add for EVERY statement type
+			tree, err = parse.Parse(inputName, text, extCardEverywhere)
+		case 2:
+			// the two-step entry: a tree allocated first, parsed later (twice: the second parse
+			// must not see anything of the first)
+			t := parse.New(inputName, nil)
+			t.Parse("module first { namespace u; prefix p; leaf a { type string; } }\n\n\n")
+			tree, err = t.Parse(text)
+		case 3:
+			tree, err = parse.New(inputName, extCardEverywhere).Parse(text)
+		default:
+			tree, err = parse.Parse(inputName, text, nil)
+		}
 	})
 	verifrt.SetHorizon(0)
 	for _, p := range s.Points {
@@ -170,7 +192,11 @@ func checkSchedule(text string, choices []int) (vs []engine.Violation, outcome s
 		}
 	}
 	mk := func(key, detail string) {
-		vs = append(vs, engine.Violation{Key: key, Witness: strconv.Quote(text), Detail: detail, Harness: "text", Replay: engine.JSON(caseRec{Text: text, Choices: choices})})
+		if parseVariant != 0 {
+			key += fmt.Sprintf(":entry-point-%d", parseVariant)
+			detail = fmt.Sprintf("(entry point %d: 1 = Parse with an extension cardinality function, 2 = New + Parse twice, 3 = New with extensions + Parse) ", parseVariant) + detail
+		}
+		vs = append(vs, engine.Violation{Key: key, Witness: strconv.Quote(text), Detail: detail, Harness: "text", Replay: engine.JSON(caseRec{Text: text, Choices: choices, Variant: parseVariant})})
 	}
 	if s.BadReplay != "" {
 		mk("harness-bad-replay", s.BadReplay)
@@ -352,6 +378,15 @@ func run(c *engine.Ctx) {
 				if c.Case(id) {
 					report(t[:i])
 				}
+				// the same prefix through the other entry points
+				for variant := 1; variant < 4 && ti < len(corpus); variant++ {
+					if c.Case(fmt.Sprintf("%s:entry-point-%d", id, variant)) {
+						c.Add("states", 1)
+						parseVariant = variant
+						report(t[:i])
+						parseVariant = 0
+					}
+				}
 			}
 			if i < len(t) {
 				id = fmt.Sprintf("corpus:%d:del:%d", ti, i)
@@ -403,27 +438,36 @@ func run(c *engine.Ctx) {
 	// around the boundaries of every one of those helpers
 	for fi, frame := range typedArgFrames {
 		for vi, v := range typedArgValues() {
-			id := fmt.Sprintf("typedarg:%d:%d", fi, vi)
-			if !c.Owns(id) || !c.Case(id) {
-				continue
+			for variant := 0; variant < 4; variant++ {
+				id := fmt.Sprintf("typedarg:%d:%d:%d", fi, vi, variant)
+				if !c.Owns(id) || !c.Case(id) {
+					continue
+				}
+				c.Add("states", 1)
+				c.Add("transitions", 1)
+				parseVariant = variant
+				report("module m{namespace u;prefix p;" + strings.Replace(frame, "ARG", "\""+v+"\"", 1) + "}")
+				parseVariant = 0
 			}
-			c.Add("states", 1)
-			c.Add("transitions", 1)
-			report("module m{namespace u;prefix p;" + strings.Replace(frame, "ARG", "\""+v+"\"", 1) + "}")
 		}
 	}
 	// E: every keyword the parser knows (RFC 6020 and the configd / opd extension sets), with and
 	// without argument and block, at module level, below a container, below a type and inside itself
 	for ki, kw := range allKeywords {
-		for fi, frame := range []string{"KW \"x\";", "KW \"x\" { }", "KW;", "KW { }", "KW x { KW y; }", "container c { KW \"x\"; }", "leaf l { type string { KW \"x\"; } }", "KW \"x\" { description d; KW2 z; }", "KW 1 { KW2 \"2\" { KW 3; } }"} {
-			id := fmt.Sprintf("keyword:%d:%d", ki, fi)
-			if !c.Owns(id) || !c.Case(id) {
-				continue
+		for fi, frame := range []string{"KW \"x\";", "KW \"x\" { }", "KW;", "KW { }", "KW x { KW y; }", "container c { KW \"x\"; }", "leaf l { type string { KW \"x\"; } }", "KW \"x\" { description d; KW2 z; }", "KW 1 { KW2 \"2\" { KW 3; } }",
+			"KW \"x\" { configd:help \"h\"; }", "KW { opd:help h; opd:help h2; }", "uses g { refine l { KW x; configd:help \"h\"; } }"} {
+			for variant := 0; variant < 4; variant++ {
+				id := fmt.Sprintf("keyword:%d:%d:%d", ki, fi, variant)
+				if !c.Owns(id) || !c.Case(id) {
+					continue
+				}
+				c.Add("states", 1)
+				c.Add("transitions", 1)
+				kw2 := allKeywords[(ki+1)%len(allKeywords)]
+				parseVariant = variant
+				report("module m{namespace u;prefix p;" + strings.ReplaceAll(strings.ReplaceAll(frame, "KW2", kw2), "KW", kw) + "}")
+				parseVariant = 0
 			}
-			c.Add("states", 1)
-			c.Add("transitions", 1)
-			kw2 := allKeywords[(ki+1)%len(allKeywords)]
-			report("module m{namespace u;prefix p;" + strings.ReplaceAll(strings.ReplaceAll(frame, "KW2", kw2), "KW", kw) + "}")
 		}
 	}
 	c.Sample(map[string]any{"text": corpus[1][:40], "kind": "corpus prefix"})
@@ -464,6 +508,8 @@ func replay(c *engine.Ctx, sub string, raw json.RawMessage) []engine.Violation {
 	if json.Unmarshal(raw, &r) != nil {
 		return []engine.Violation{{Key: "harness-bad-replay-file"}}
 	}
+	parseVariant = r.Variant
+	defer func() { parseVariant = 0 }()
 	if len(r.Choices) > 0 {
 		vs, _, _, _ := checkSchedule(r.Text, r.Choices)
 		return vs
